@@ -311,7 +311,7 @@ MANIFEST = dict(
     text=("KeyParams.tla is the key-type inventory as TLA+ data (29 parameter families / 42 key types: fields, domains, ParamsOK, "
           "Usable, Representable). TLC (Plan_KeyParams) enumerates every parameter record (thorough: the full dependent product, "
           "43k records; quick: boundary-thinned, 7.5k); the REAL constructors, serializers and parsers are executed on every record "
-          "and on keys of every kind x material class {random, all-zero, leading-zero, id 2^32-1, id 0}, through "
+          "and on keys of every kind x material class {random, all-zero, leading-zero, id 2^32-1, id 0; RSA: unbalanced primes both ways, dp / dq / qInv with one and two leading zero bytes, short d}, each also put into a handle whose KeysetInfo() / String() must not panic, through "
           "internal/protoserialization (verif bridge) and through Manager.AddKey + cleartext binary/JSON write/read. "
           "Trace_KeyParams.tla judges every record: Equal both ways, byte-identical re-serialization, type URL, material type, "
           "variant <-> output prefix type, id requirement, and -- with a protobuf wire decoder written in TLA+ (KeyFormatWire.tla, "
